@@ -36,3 +36,13 @@ try:
     print("D20 not reproduced with this shape")
 except BaseException as e:  # noqa: BLE001
     print("D20:", type(e).__name__, str(e)[:90])
+
+
+# D16 (third trigger): literal <op> when(col).then(lit).otherwise(lit) returns a length-1 series if the condition column is uniform
+for data in ([True, False], [True, True], [None, None]):
+    df = pl.DataFrame({"m": data}, schema={"m": pl.Boolean})
+    try:
+        df.with_columns(w=pl.lit("a%") == pl.when(pl.col("m")).then(pl.lit("q")).otherwise(pl.lit("b'c")))
+        print("D16c:", data, "ok")
+    except Exception as e:  # noqa: BLE001
+        print("D16c:", data, type(e).__name__, str(e)[:70].replace("\n", " "))
